@@ -33,7 +33,8 @@ RULE = {
         "Hypothesis-generated histories: update(slot relative to the newest slot in [-cap-2, 2cap+2], off-grid fraction from "
         "{0, +-0.2, +-0.49, +-0.5 periods}, unique valid value / None / NaN) interleaved with queries window(i, j) (None, "
         "negative, out of range), window(t0, t1) with aligned and unaligned datetimes inside/outside/straddling the covered "
-        "range, closer than one period, t0 >= t1, fill values NaN / sentinel / None, at(key); on OrderedRingBuffer(list), "
+        "range, closer than one period, t0 >= t1, fill values NaN / sentinel / None, at(key), dump/load round-trips through the "
+        "serialization module after which the history continues on the loaded copy; on OrderedRingBuffer(list), "
         "OrderedRingBuffer(np.empty) and MovingWindow (fed through a channel on the virtual loop). Oracle: dict model of the "
         "window ending at the newest slot; after every update count_valid, the set of slots covered by gaps, oldest/newest "
         "timestamps; every query must return the model values (fill value where invalid) of a contiguous slot run whose ends "
@@ -62,7 +63,7 @@ def _case(draw: Any, max_cap: int, max_ops: int) -> dict[str, Any]:
     ops: list[list[Any]] = []
     idx = st.one_of(st.none(), st.integers(-cap - 2, cap + 2))
     for _ in range(draw(st.integers(1, max_ops))):
-        kind = draw(st.sampled_from(["u", "u", "u", "qi", "qd", "qd", "at"]))
+        kind = draw(st.sampled_from(["u", "u", "u", "u", "u", "u", "qi", "qi", "qd", "qd", "qd", "qd", "at", "at", "rt"]))
         if kind == "u":
             ops.append(["upd", draw(st.integers(-cap - 2, 2 * cap + 2)), draw(st.sampled_from(FRACS)),
                         draw(st.sampled_from(["v", "v", "v", "none", "nan"]))])
@@ -72,6 +73,8 @@ def _case(draw: Any, max_cap: int, max_ops: int) -> dict[str, Any]:
             ops.append(["qd", draw(st.integers(-2, cap + 2)), draw(st.sampled_from(FRACS)),
                         draw(st.integers(-2, cap + 2)), draw(st.sampled_from(FRACS)),
                         draw(st.sampled_from(["nan", "sentinel", "none"]))])
+        elif kind == "rt":
+            ops.append(["rt"])
         else:
             ops.append(["at", draw(st.integers(-2, cap + 2))])
     return {
@@ -144,6 +147,27 @@ class _Driver:
             return float(self.mw.at(key))
         # OrderedRingBuffer has no at(); use a one-slot window
         raise NotImplementedError
+
+    def roundtrip(self) -> bool:
+        """Dump the buffer to a file and continue with the loaded copy (serialization module)."""
+        if self.mw is not None:
+            return False
+        import os  # pylint: disable=import-outside-toplevel
+        import tempfile  # pylint: disable=import-outside-toplevel
+
+        from frequenz.sdk.timeseries._ringbuffer import serialization  # pylint: disable=import-outside-toplevel
+
+        fd, path = tempfile.mkstemp(prefix="vf_c09_", suffix=".pkl")
+        os.close(fd)
+        try:
+            serialization.dump(self.buf, path)
+            loaded = serialization.load(path)
+        finally:
+            os.unlink(path)
+        if loaded is None:
+            raise RuntimeError("load() returned None for a file that was just dumped")
+        self.buf = loaded
+        return True
 
     async def stop(self) -> None:
         if self.mw is not None:
@@ -266,6 +290,10 @@ def run_case(case: Any, pid: str) -> Verdict:
                             return
                     continue
 
+                if op[0] == "rt":
+                    if drv.roundtrip():
+                        v.labels.add("dump_load_roundtrip")
+                    continue
                 # queries
                 if newest is None:
                     continue
